@@ -371,6 +371,8 @@ impl Server {
                 crate::verif::point(crate::verif::Ev::Published);
                 #[cfg(feature = "verif")]
                 crate::verif::point(crate::verif::Ev::PublishedFor(file_id.0, diag_version));
+                #[cfg(feature = "verif")]
+                crate::verif::point(crate::verif::Ev::PublishedCount(file_id.0, 0));
             }
 
             for (file_id, diagnostics) in all_diagnostics {
@@ -391,6 +393,8 @@ impl Server {
                 let file_uri = UrlExt::from_file_path(file_path);
 
                 let params = PublishDiagnosticsParams::new(file_uri, lsp_diags, Some(diag_version));
+                #[cfg(feature = "verif")]
+                let published_count = params.diagnostics.len();
                 client
                     .publish_diagnostics(params)
                     .expect("failed to publish diagnostics");
@@ -398,6 +402,8 @@ impl Server {
                 crate::verif::point(crate::verif::Ev::Published);
                 #[cfg(feature = "verif")]
                 crate::verif::point(crate::verif::Ev::PublishedFor(file_id.0, diag_version));
+                #[cfg(feature = "verif")]
+                crate::verif::point(crate::verif::Ev::PublishedCount(file_id.0, published_count));
             }
         });
     }
